@@ -276,12 +276,19 @@ KF_CatIntoOutput(a) ==
 \* (ValueError "The first layer of the pair to be fused has multiple users") when that layer's output is also read by
 \* another node - a documented rejection, not a finding.  (A layer object with several call sites followed by a
 \* BatchNorm is the fusion-per-call-site topology of finding F51 and is not generated here.)
+RECURSIVE BnFused(_, _)
+\* the BatchNorm of node n ends up inside a searchable layer (directly, or behind a BatchNorm that was fused before it)
+BnFused(a, n) == Op(a, n) = "bns" /\ In1(a, n) # 0 /\
+                 ((IsLayer(a, In1(a, n)) /\ Searchable(a, In1(a, n))) \/ BnFused(a, In1(a, n)))
 RejectedFusion(a) ==
-    \E n \in 1..N(a) : Op(a, n) = "bns" /\ In1(a, n) # 0 /\ IsLayer(a, In1(a, n)) /\ Searchable(a, In1(a, n)) /\
+    \E n \in 1..N(a) : BnFused(a, n) /\
         \/ \E m \in 1..N(a) : m # n /\ In1(a, n) \in SeqSet(Ins(a, m))
-        \/ Cardinality(CallSites(a, Owner(a, In1(a, n)))) > 1
+        \/ (IsLayer(a, In1(a, n)) /\ Cardinality(CallSites(a, Owner(a, In1(a, n)))) > 1)
+\* two BatchNorms in a row behind a searchable layer: the second fusion overwrites the first one (finding F73, a C07
+\* matter: the converted model no longer computes the original function); not generated for the PIT family
+DoubleFusion(a) == \E n \in 1..N(a) : BnFused(a, n) /\ Op(a, In1(a, n)) = "bns"
 
-Supported(a) == ~RejectedFusion(a) /\ ~KF_NonZeroOp(a) /\ ~KF_CoupledOp(a) /\ ~KF_CatIntoOutput(a) /\ ~KF_Reuse(a) /\ ~KF_DwOrphan(a) /\ ~KF_FixedInMaskedGroup(a)
+Supported(a) == ~RejectedFusion(a) /\ ~DoubleFusion(a) /\ ~KF_NonZeroOp(a) /\ ~KF_CoupledOp(a) /\ ~KF_CatIntoOutput(a) /\ ~KF_Reuse(a) /\ ~KF_DwOrphan(a) /\ ~KF_FixedInMaskedGroup(a)
                 /\ ~KF_FixedAfterSearch(a) /\ ~KF_CatIntoAdd(a) /\ ~KF_MixedWidthGroup(a)
 
 (* ------------------------------ C09 invariants ------------------------- *)
